@@ -51,6 +51,7 @@ var rgNilPtrs = map[string]interface{}{
 	"*main.RgUser": (*RgUser)(nil),
 	"*main.RgPet":  (*RgPet)(nil),
 	"*int":         (*int)(nil),
+	"*string":      (*string)(nil),
 }
 
 // structFromDesc builds a struct value of the family from parsed fields (unexported fields are set too).
@@ -242,7 +243,7 @@ func (g *sgen) tmpl() string {
 	for i, n := 0, g.r.Range(1, 3); i < n; i++ {
 		root := g.root()
 		p, ty := g.path(root, 4, 8)
-		k := g.r.Intn(19)
+		k := g.r.Intn(22)
 		if root != "u" && root != "uv" && k >= 7 && k != 9 && k != 13 && g.r.Chance(85) {
 			// the fixed member suffixes below are fields of RgUser
 			root = Pick(g.r, []string{"u", "uv"})
@@ -304,6 +305,17 @@ func (g *sgen) tmpl() string {
 			sb.WriteString("<%= for (i, e) in " + root + Pick(g.r, []string{".Any", ".Boss.Any", ".Tags"}) + " { %><%= i %>=<%= e %>,<% } %>")
 		case 15:
 			sb.WriteString("<%= if (" + p + " && " + root + ".Ok) { %>A<% } else if (" + root + ".Boss) { %>B<% } %>")
+		case 21:
+			// pointers to scalars as values: printed (nothing: they fall through the sink's type switch), tested, passed on
+			q := Pick(g.r, []string{"pi", "ps", "npi", "u", "pp", "nu"})
+			sb.WriteString("(" + Pick(g.r, []string{"<%= " + q + " %>", "<%= if (" + q + ") { %>t<% } else { %>f<% } %>", "<%= echo(" + q + ") %>", "<%= " + q + " == nil %>", "<%= for (x) in [" + q + ", 1] { %><%= x %>;<% } %>", "<% let w = " + q + " %><%= w %><%= !w %>"}) + ")")
+		case 19, 20:
+			// struct / pointer / typed-nil values as arguments of Go helpers: passed on unchanged
+			q, _ := g.path(root, 3, 0)
+			if g.r.Chance(15) {
+				q = "nu"
+			}
+			sb.WriteString("<" + Pick(g.r, []string{"<%= echo(" + q + ") %>", "<%= echo(1, " + q + ", u.Boss) %>", "<%= ident(" + q + ") %>", "<%= echo(ident(" + q + ")) %>", "<%= vstr(\"a\", " + q + ") %>", "<%= if (ident(" + q + ")) { %>t<% } %>"}) + ">")
 		case 18:
 			// a tail that itself indexes with a loop variable: evaluated again on every iteration
 			q := root + Pick(g.r, []string{".Any[0]", ".M[\"p\"]", ".Any[1]"})
@@ -328,7 +340,10 @@ func genStructCase(r *Rng) (env, tmpl string) {
 	env = rgEnv + ";" + hx("u") + "=P" + shx("*main.RgUser") + "&" + u +
 		";" + hx("uv") + "=" + g.user("uv", 1) +
 		";" + hx("nu") + "=Q" + shx("*main.RgUser") +
-		";" + hx("pp") + "=P" + shx("*main.RgPet") + "&" + g.pet("pp", 1)
+		";" + hx("pp") + "=P" + shx("*main.RgPet") + "&" + g.pet("pp", 1) +
+		";" + hx("pi") + "=P" + shx("*int") + "&i" + strconv.Itoa(g.r.Range(0, 99)) +
+		";" + hx("ps") + "=P" + shx("*string") + "&s" + shx("<ps&>") +
+		";" + hx("npi") + "=Q" + shx("*int")
 	return env, g.tmpl()
 }
 
